@@ -19,18 +19,21 @@ LEVEL_TEXT = ("for generated (BASE, THIS, OTHER) line triples incl. marker look-
               "branches with every combination of reprocess / show-base / cherrypick: conflict record <=> reference has a conflicting region, file bytes == "
               "reference output, helper files byte-exact, and take-this / take-other leave exactly THIS / OTHER with helpers and record gone")
 RULE = ("case = one line triple (lengths 0-8 over 6 plain lines + hostile marker-like lines; derived by edits, independent, or degenerate) in one file of "
-        "real BASE/THIS/OTHER branches (2a or git; plain or cherrypick history; THIS committed or uncommitted); every option set "
+        "real BASE/THIS/OTHER branches (2a or git; plain or cherrypick history, or the file added on both sides with no BASE text; THIS committed or "
+        "uncommitted; sentinel-prefixed lines also in exactly one of the three texts inside a conflicting region); every option set "
         "(reprocess x show_base for merge3, reprocess for weave/lca) is one evaluation; non-trivial = text merge needed (all three texts pairwise "
         "different); distinct = (triple, format, history shape, merger, options)")
 CASES = {"quick": 300, "thorough": 8000}
 BUDGET_S = {"quick": 35, "thorough": 600}
 MIN_EVALS = {"quick": 400, "thorough": 10000}
 FLOORS = {"ref_conflict_iff_record": 300, "ref_bytes": 300, "helpers_exact": 60, "resolve_take_this": 40, "resolve_take_other": 40,
-          "cant_reprocess_and_show_base": 30, "weave_record_iff_helpers": 60, "clean_no_helpers": 60}
+          "cant_reprocess_and_show_base": 30, "weave_record_iff_helpers": 60, "clean_no_helpers": 60,
+          "added_on_both_sides": 10, "resolve_with_helper_deleted_by_hand": 30}
 ASSUMPTIONS = [
     "reference = merge3.Merge3 with patiencediff.PatienceSequenceMatcher (the matcher the merge3 merge type documents), same is_cherrypick / reprocess / base marker",
     "weave and lca mergers are judged only on: conflict record <=> helper files exist, .THIS/.OTHER byte-exact, resolve actions",
     "lines never contain NUL (binary files are contents conflicts, not text conflicts) nor a bare CR",
+    "before 40 % of the resolutions one helper file the chosen action does not need is deleted by hand; file added on both sides: no .BASE helper is demanded",
 ]
 
 # the sentinel breezy.merge.Merge3Merger.text_merge uses internally to recognise conflict starts
@@ -52,11 +55,11 @@ SUFFIXES = (".BASE", ".THIS", ".OTHER")
 def _pool(rng, tier):
     """(pool of line bodies, flavour) for one triple."""
     r = rng.random()
-    if r < 0.55:
+    if r < 0.50:
         return list(PLAIN), "plain"
-    if r < 0.80:
+    if r < 0.72:
         return PLAIN + rng.sample(HOSTILE, 3), "markers"
-    if r < 0.90 or tier not in SENTINEL_START_TIERS:
+    if r < 0.82 or tier not in SENTINEL_START_TIERS:
         return PLAIN[:4] + rng.sample(HOSTILE, 1) + rng.sample(SENT_MID, 2), "sentinel-mid"
     return PLAIN[:4] + rng.sample(SENT_START, 2) + rng.sample(SENT_MID, 1), "sentinel-start"
 
@@ -93,7 +96,24 @@ def gen_triple(rng, tier):
     pool, flavour = _pool(rng, tier)
     r = rng.random()
     base = [rng.choice(pool) for _ in range(rng.randint(0, 8))]
-    if flavour == "sentinel-start" and rng.random() < 0.5:
+    rs = rng.random()
+    if flavour == "sentinel-start" and rs < 0.45:
+        # a sentinel-prefixed line that occurs in exactly ONE of the three texts, inside a truly conflicting region
+        # (with show_base the BASE-only line must come out verbatim in the BASE section of the marked-up file)
+        who = rng.choice(["base", "base", "this", "other"])
+        shape = "one-text-conflict:" + who
+        base = [rng.choice(PLAIN) for _ in range(rng.randint(2, 7))]
+        i = rng.randrange(len(base))
+        x, y = rng.sample([b for b in PLAIN if b != base[i]], 2)
+        this, other = list(base), list(base)
+        this[i], other[i] = x, y
+        sent = rng.choice([b for b in pool if b.startswith(SENT)])
+        {"base": base, "this": this, "other": other}[who][i] = sent
+        if rng.random() < 0.4:  # a second, sentinel-free conflicting region
+            j = rng.randrange(len(base))
+            if abs(j - i) > 1:
+                this[j], other[j] = rng.sample([b for b in PLAIN if b != base[j]], 2)
+    elif flavour == "sentinel-start" and rs < 0.8:
         # a clean merge whose result contains a user line beginning with the sentinel: the sides edit lines far apart
         shape = "far-apart"
         base = [rng.choice(PLAIN) for _ in range(rng.randint(4, 8))]
@@ -182,8 +202,12 @@ def _commit(wt, msg, n, git):
     return wt.commit(msg, **kw)
 
 
-def _build(ctx, fmt, name, B, T, O, cherry, uncommitted):
-    """Real branches.  Returns (this_dir, other_dir, base_revid or None, other_revid)."""
+def _build(ctx, fmt, name, B, T, O, cherry, uncommitted, added_both=False):
+    """Real branches.  Returns (this_dir, other_dir, base_revid or None, other_revid).
+
+    added_both: the common ancestor has no such file; THIS and OTHER each add it at the same path (and, on bzr,
+    with the same file id), so there is no BASE text and the merge writes no .BASE helper.
+    """
     from vf import gen
     from breezy.workingtree import WorkingTree
 
@@ -195,8 +219,25 @@ def _build(ctx, fmt, name, B, T, O, cherry, uncommitted):
     parts = name.split("/")
     for i in range(1, len(parts)):
         os.makedirs(os.path.join(first, *parts[:i]), exist_ok=True)
-    _write(wt, name, tt if cherry else tb)
     adds = ["/".join(parts[:i]) for i in range(1, len(parts) + 1)]
+    if added_both:
+        _write(wt, "keep-me", b"keep\n")
+        wt.add(["keep-me"] + adds[:-1])
+        _commit(wt, "first", 0, git)
+        odir = os.path.join(root, "other")
+        wt.branch.controldir.sprout(odir)
+        owt = WorkingTree.open(odir)
+        for w, data in ((owt, to), (wt, tt)):
+            _write(w, name, data)
+            if git:
+                w.add([name])
+            else:
+                w.add([name], ids=[b"c19-added-on-both-sides"])
+        other_rev = _commit(owt, "other", 1, git)
+        if not uncommitted:
+            _commit(wt, "this", 2, git)
+        return first, odir, None, other_rev
+    _write(wt, name, tt if cherry else tb)
     wt.add(adds)
     _commit(wt, "first", 0, git)
     odir = os.path.join(root, "other")
@@ -253,13 +294,18 @@ def _key(base, B, T, O):
     return base
 
 
-def _judge_resolve(ctx, cdir, name, action, via, want, fid, detail, keyf):
+def _judge_resolve(ctx, cdir, name, action, via, want, fid, detail, keyf, drop=None):
     """Run one resolution on a private copy of the conflicted tree and judge the result."""
     from breezy import conflicts as _mod_conflicts
     from breezy.workingtree import WorkingTree
 
     rdir = cdir + "-" + action
     shutil.copytree(cdir, rdir, symlinks=True)
+    if drop:
+        # the user removed one helper by hand (one the chosen action does not need) before resolving
+        os.unlink(os.path.join(rdir, name + drop))
+        ctx.count("resolve_with_helper_deleted_by_hand")
+        ctx.hist("resolve-helper-deleted:" + drop)
     wt = WorkingTree.open(rdir)
     if via == "cmd":
         cmd = _mod_conflicts.cmd_resolve()
@@ -280,7 +326,7 @@ def _judge_resolve(ctx, cdir, name, action, via, want, fid, detail, keyf):
     ctx.count("resolve_" + action)
     ctx.hist("resolve-via:" + via)
     disk = observe.snap_disk(rdir)
-    d = dict(detail, action=action, via=via)
+    d = dict(detail, action=action, via=via, helper_deleted_by_hand=drop)
     got = disk.get(name)
     ctx.check(got is not None and got[0] == "file" and got[1] == want, keyf("resolve:%s:file-not-%s-text" % (action, action.split("_")[1])),
               "after %s the file is %r, wanted %r" % (action, got, want), d)
@@ -307,19 +353,25 @@ def case(ctx):
     git = fmt == "git"
     cherry = rng.random() < 0.3
     uncommitted = (not cherry) and rng.random() < 0.25
+    added_both = (not cherry) and rng.random() < 0.14
+    if added_both:
+        B = []  # no BASE text at all: the file is added on both sides
     name = rng.choice(NAMES)
     tb, tt, to = b"".join(B), b"".join(T), b"".join(O)
     desc = {"base": [x.decode("latin-1") for x in B], "this": [x.decode("latin-1") for x in T], "other": [x.decode("latin-1") for x in O],
-            "format": fmt, "cherrypick": cherry, "this_uncommitted": uncommitted, "name": name, **meta}
+            "format": fmt, "cherrypick": cherry, "this_uncommitted": uncommitted, "added_on_both_sides": added_both, "name": name, **meta}
     ctx.info["case"] = desc
     try:
-        tdir, odir, base_rev, other_rev = _build(ctx, fmt, name, B, T, O, cherry, uncommitted)
+        tdir, odir, base_rev, other_rev = _build(ctx, fmt, name, B, T, O, cherry, uncommitted, added_both)
     except errors.BzrError as e:
         ctx.discard("build:%s" % type(e).__name__)
-    needs_text_merge = tb != tt and tb != to and tt != to
+    # (a file absent from BASE differs from both sides whatever they hold, even if one of them is empty)
+    needs_text_merge = tt != to and (added_both or (tb != tt and tb != to))
     ctx.hist("flavour:" + meta["flavour"])
     ctx.hist("shape:" + meta["shape"])
-    ctx.hist("fmt:%s%s%s" % (fmt, ":cherrypick" if cherry else "", ":uncommitted" if uncommitted else ""))
+    ctx.hist("fmt:%s%s%s%s" % (fmt, ":cherrypick" if cherry else "", ":uncommitted" if uncommitted else "", ":added-on-both-sides" if added_both else ""))
+    if added_both:
+        ctx.count("added_on_both_sides")
 
     def keyf(k):
         # only the oracles that read the merged text / the conflict decision can be affected by the sentinel
@@ -341,7 +393,7 @@ def case(ctx):
         before = observe.snap_disk(mdir)
         opts = {"merger": mt.__name__, "reprocess": reprocess, "show_base": show_base}
         detail = dict(desc, **opts)
-        sig = (desc["base"], desc["this"], desc["other"], fmt, cherry, uncommitted, mt.__name__, reprocess, show_base)
+        sig = (desc["base"], desc["this"], desc["other"], fmt, cherry, uncommitted, added_both, mt.__name__, reprocess, show_base)
         ref3 = mt is Merge3Merger
         try:
             cooked, merger = _merge(wt, odir, mt, base_rev, other_rev, reprocess, show_base)
@@ -395,12 +447,12 @@ def case(ctx):
             ctx.check(bool(helpers) == bool(texts), keyf("weave:record-iff-helpers"), "record=%r helpers=%r" % (texts, sorted(helpers)), detail)
             if not needs_text_merge:
                 # no text merge: the file-level three-way decision alone fixes the result
-                want = to if tt == tb else tt
+                want = to if (tt == tb and not added_both) else tt
                 ctx.check(got[1] == want and not texts, keyf("weave:trivial-merge-wrong"), "file %r wanted %r conflicts %r" % (got[1], want, texts), detail)
         if want_conflict and texts:
             ctx.count("helpers_exact")
             wanted = {".THIS": tt, ".OTHER": to}
-            if ref3:
+            if ref3 and not added_both:
                 wanted[".BASE"] = tb
             for suf, data in sorted(wanted.items()):
                 h = helpers.get(suf)
@@ -418,7 +470,9 @@ def case(ctx):
                 nres += 1
                 for action, want in (("take_this", tt), ("take_other", to)):
                     via = rng.choice(["cmd", "resolve", "object"])
-                    _judge_resolve(ctx, mdir, name, action, via, want, fid, detail, keyf)
+                    unneeded = sorted(suf for suf in helpers if suf != {"take_this": ".THIS", "take_other": ".OTHER"}[action])
+                    drop = rng.choice(unneeded) if unneeded and rng.random() < 0.4 else None
+                    _judge_resolve(ctx, mdir, name, action, via, want, fid, detail, keyf, drop)
         elif not texts:
             ctx.count("clean_no_helpers")
             ctx.check(not helpers, keyf("helpers-without-conflict"), "helper files after a clean merge: %r" % (sorted(helpers),), detail)
